@@ -21,7 +21,8 @@ def run(tier, seed):
     res.assumptions = ["proof covers scans of one border node; the hand-over between nodes (next pointer + next version before "
                        "the final check), splits and unlinks under the scanner are explored on the real code, not proved",
                        "sequentially consistent interleavings only"]
-    return conc.run_conc_property(res, "c04", WANT, conc.SHAPES + ["collapse-scan", "collapse", "collapse-scan-l1"], ("put", "rem", "uput"), True, 150, 1500, tie_shapes=(), chain_tie=True)
+    return conc.run_conc_property(res, "c04", WANT, conc.SHAPES + ["collapse-scan", "collapse", "collapse-scan-l1"], ("put", "rem", "uput"), True, 150, 1500, tie_shapes=(), chain_tie=True,
+                                  catalogue_filter=lambda sc: any(o.startswith(("scan", "iscan")) for ops in sc.threads for o in ops))
 
 
 def replay(path, tier, seed):
